@@ -151,6 +151,33 @@ def probe(ctx, cal, m, cfg, ns, stride, rng, sb, light=False):
                 if cal.clock(got) - cal.clock(t) != n:
                     ctx.fail('clock_difference', 'clock(add(t,%d)) - clock(t) = %s; cfg=%s' % (n, cal.clock(got) - cal.clock(t), _brief(cfg)))
                     return False
+            # other spellings of the same arithmetic: '+0b' / '-0b' are adjust following / previous, a compound tenor applies its parts left to right,
+            # a list / tuple / dict of dates is adjusted member by member
+            mon['calendar_dt_bump_b'] += 1
+            g0, g1 = cal.dt_bump(t, '+0b'), cal.dt_bump(t, '-0b')
+            if g0 != m.adjust(t, 'f') or g1 != m.adjust(t, 'p'):
+                ctx.fail('calendar_dt_bump_b', "cal.dt_bump(%s,'+0b') = %s, '-0b' = %s; adjust following / previous give %s / %s; cfg=%s" % (t, g0, g1, m.adjust(t, 'f'), m.adjust(t, 'p'), _brief(cfg)))
+                return False
+            k = rng.choice([1, 2, 3, 7, -1, -2, -3])
+            if 1 <= base + n < len(m.bd) - 1:
+                mid = t + DAY * k
+                b2 = m.idx[m.adjust(mid, adj)]
+                if lo <= mid <= hi and 1 <= b2 + n < len(m.bd) - 1:
+                    mon['calendar_dt_bump_b'] += 1
+                    tenor = '%dd%db' % (k, n)
+                    got = cal.dt_bump(t, tenor)
+                    if got != m.bd[b2 + n]:
+                        ctx.fail('calendar_dt_bump_b', "cal.dt_bump(%s,%r) = %s, %d days then %d business days gives %s; cfg=%s" % (t, tenor, got, k, n, m.bd[b2 + n], _brief(cfg)))
+                        return False
+            others = [t + DAY * j for j in (0, 1, 2, 5)]
+            others = [o for o in others if lo <= o <= hi]
+            for a in ('f', 'p', None):
+                mon['adjust_fpm'] += 1
+                exp = [m.adjust(o, a or adj) for o in others]
+                gl, gt, gd = cal.adjust(list(others), a), cal.adjust(tuple(others), a), cal.adjust({str(i): o for i, o in enumerate(others)}, a)
+                if gl != exp or gt != tuple(exp) or gd != {str(i): e for i, e in enumerate(exp)} or type(gl) is not list or type(gt) is not tuple or type(gd) is not dict:
+                    ctx.fail('adjust_fpm', 'adjust of a list / tuple / dict of dates %s with %r = %s / %s / %s, member by member gives %s; cfg=%s' % (others, a, gl, gt, gd, exp, _brief(cfg)))
+                    return False
     # drange '1b'
     for _ in range(3 if light else 25):
         a, b = sorted(rng.sample(days, 2)) if len(days) >= 2 else (days[0], days[0])
